@@ -19,8 +19,8 @@ import (
 )
 
 type vfKeeperKeys struct {
-	Sizes   []uint64 `json:"sizes"`   // successive ConfigureBySize targets (MiB)
-	Extra   []int    `json:"extra"`   // other wallet activity between the calls: addresses issued on the internal branch
+	Sizes   []uint64 `json:"sizes"` // successive ConfigureBySize targets (MiB)
+	Extra   []int    `json:"extra"` // other wallet activity between the calls: addresses issued on the internal branch
 	Hash    []byte   `json:"hash"`
 	Restart bool     `json:"restart"`
 }
